@@ -13,6 +13,9 @@
 #include "algorithms/sequential/tbfalgorithm.hpp"
 #include "algorithms/openmp/tbfopenmpalgorithm.hpp"
 #include "algorithms/periodic/tbfalgorithmperiodictoptree.hpp"
+#include "core/tbftreetsm.hpp"
+#include "algorithms/sequential/tbfalgorithmtsm.hpp"
+#include "algorithms/openmp/tbfopenmpalgorithmtsm.hpp"
 #if KERNEL == 0
 #include "kernels/rotationkernel/FRotationKernel.hpp"
 #else
@@ -68,6 +71,74 @@ template <class Algo, class... KArgs>
 void run_algo(const TbfSpacialConfiguration<Real, Dim>& conf, TreeClass& tree, KArgs&&... kargs){
     std::unique_ptr<Algo> algo(new Algo(conf, std::forward<KArgs>(kargs)...));
     algo->execute(tree);
+}
+
+//   numt H B mode exec Ns Nt seed cx cy cz width chargemode rel : target/source run (separate particle sets; rel: 0 both uniform in
+//   the box, 1 sources in the lower half / targets in the upper half (x), 2 targets = a subset of the source positions,
+//   3 all targets in one small cluster) compared with the long-double sum over the sources (coincident points excluded)
+using TreeClassT = TbfTreeTsm<Real, Real, Dim+1, Real, 4, MultipoleClass, LocalClass>;
+static std::string run_tsm(const Cmd& c){
+    const long H = c.L(1), B = c.L(2), mode = c.L(3), exec = c.L(4), Ns = c.L(5), Nt = c.L(6);
+    lcg = (unsigned long)c.L(7) * 7919 + 17;
+    const Real cx = Real(c.D(8)), cy = Real(c.D(9)), cz = Real(c.D(10)), w = Real(c.D(11));
+    const long chargemode = c.L(12), rel = c.L(13);
+    const std::array<Real, Dim> widths{{w, w, w}}; const std::array<Real, Dim> center{{cx, cy, cz}};
+    TbfSpacialConfiguration<Real, Dim> conf(H, widths, center);
+    std::vector<std::array<Real, Dim+1>> ps(Ns), pt(Nt);
+    for(long i = 0 ; i < Ns ; ++i){
+        const double fx = rel == 1 ? rnd() * 0.499 : rnd() * 0.998;
+        ps[i][0] = Real(cx + (fx - 0.499) * w); ps[i][1] = Real(cy + (rnd() - 0.5) * 0.998 * w); ps[i][2] = Real(cz + (rnd() - 0.5) * 0.998 * w);
+        ps[i][3] = pick_charge(chargemode);
+    }
+    for(long i = 0 ; i < Nt ; ++i){
+        if(rel == 2){ const long j = long(rnd() * Ns) % Ns; pt[i] = ps[j]; pt[i][0] = Real(double(pt[i][0]) + 1e-3 * w * (rnd() - 0.5)); }
+        else if(rel == 3){ pt[i][0] = Real(cx + (0.31 + 0.01 * rnd()) * w); pt[i][1] = Real(cy + (-0.22 + 0.01 * rnd()) * w); pt[i][2] = Real(cz + (0.07 + 0.01 * rnd()) * w); }
+        else { const double fx = rel == 1 ? 0.5 + rnd() * 0.499 : rnd() * 0.998;
+               pt[i][0] = Real(cx + (fx - 0.499) * w); pt[i][1] = Real(cy + (rnd() - 0.5) * 0.998 * w); pt[i][2] = Real(cz + (rnd() - 0.5) * 0.998 * w); }
+        pt[i][3] = pick_charge(chargemode);
+    }
+    TreeClassT tree(conf, TbfUtils::make_const(ps), TbfUtils::make_const(pt), B, mode != 0);
+    std::cout.setstate(std::ios_base::failbit);
+    {
+#if KERNEL == 0
+        if(exec == 0){ std::unique_ptr<TbfAlgorithmTsm<Real, KernelClass, Space>> a(new TbfAlgorithmTsm<Real, KernelClass, Space>(conf)); a->execute(tree); }
+        else { std::unique_ptr<TbfOpenmpAlgorithmTsm<Real, KernelClass, Space>> a(new TbfOpenmpAlgorithmTsm<Real, KernelClass, Space>(conf)); a->execute(tree); }
+#else
+        FInterpMatrixKernelR<Real> interp;
+        if(exec == 0){ std::unique_ptr<TbfAlgorithmTsm<Real, KernelClass, Space>> a(new TbfAlgorithmTsm<Real, KernelClass, Space>(conf, KernelClass(conf, &interp))); a->execute(tree); }
+        else { std::unique_ptr<TbfOpenmpAlgorithmTsm<Real, KernelClass, Space>> a(new TbfOpenmpAlgorithmTsm<Real, KernelClass, Space>(conf, KernelClass(conf, &interp))); a->execute(tree); }
+#endif
+    }
+    std::cout.clear();
+    std::vector<std::array<long double, 4>> ref(Nt), mag(Nt);
+    for(long i = 0 ; i < Nt ; ++i){
+        long double fx = 0, fy = 0, fz = 0, po = 0, mf = 0, mp = 0;
+        for(long j = 0 ; j < Ns ; ++j){
+            const long double dx = (long double)ps[j][0] - pt[i][0], dy = (long double)ps[j][1] - pt[i][1], dz = (long double)ps[j][2] - pt[i][2];
+            const long double r2 = dx*dx + dy*dy + dz*dz, r = std::sqrt(r2);
+            if(r2 == 0) continue;
+            const long double qq = (long double)pt[i][3] * ps[j][3];
+            fx += qq * dx / (r2 * r); fy += qq * dy / (r2 * r); fz += qq * dz / (r2 * r);
+            po += (long double)ps[j][3] / r;
+            mf += std::fabs(qq) / r2; mp += std::fabs((long double)ps[j][3]) / r;
+        }
+        ref[i] = {{fx, fy, fz, po}}; mag[i] = {{mf, mf, mf, mp}};
+    }
+    long double epot = 0, efrc = 0, csum = 0; bool finite = true; long count = 0;
+    tree.applyToAllLeavesTarget([&](auto&& h, const long* idx, auto&&, auto&& rhs){
+        for(long p = 0 ; p < h.nbParticles ; ++p){
+            const long i = idx[p]; count += 1;
+            for(int kk = 0 ; kk < 4 ; ++kk){
+                const long double v = rhs[kk][p];
+                if(!std::isfinite((double)v)) finite = false;
+                const long double e = mag[i][kk] > 0 ? std::fabs(v - ref[i][kk]) / mag[i][kk] : std::fabs(v - ref[i][kk]);
+                if(kk == 3){ if(e > epot) epot = e; csum += v * (1 + (i % 7)); } else if(e > efrc) efrc = e;
+            }
+        }
+    });
+    char buf[320];
+    std::snprintf(buf, sizeof buf, "finite=%d count=%ld epot=%.6Le efrc=%.6Le cpot=%.17Le", int(finite), count, epot, efrc, csum);
+    return std::string(buf);
 }
 
 //   nump H B mode k N seed cx cy cz width chargemode : the documented four-step periodic sequence with k extra levels, compared
@@ -142,6 +213,7 @@ static std::string run_periodic(const Cmd& c){
 int main(int argc, char** argv){
     return run_commands(argc, argv, [](const Cmd& c) -> std::string {
         if(c.tok[0] == "nump") return run_periodic(c);
+        if(c.tok[0] == "numt") return run_tsm(c);
         if(c.tok[0] != "num") return "?unknown";
         const long H = c.L(1), B = c.L(2), mode = c.L(3), exec = c.L(4), N = c.L(5);
         lcg = (unsigned long)c.L(6) * 7919 + 17;
